@@ -243,3 +243,67 @@ M("C16", "check-after-store", "sequentials/_invariants.py", "        if sorted(n
 M("C16", "check-no-raise", "sequentials/_invariants.py", "            raise ValueError(\"New equation order must be a permutation of integers from 0 to num_equations-1\")", "            ValueError(\"New equation order must be a permutation of integers from 0 to num_equations-1\")", "C16-R1")
 M("C16", "reorder-before-compute", "sequentials/main.py", "        eids_reordered = _blazer.sequentialize_strictly(self.incidence_matrix, )\n        self.reorder_equations(eids_reordered, )", "        self.reorder_equations(tuple(range(self.num_equations)), )\n        eids_reordered = _blazer.sequentialize_strictly(self.incidence_matrix, )", "C16-R2")
 T("C16", "twin-check-eq-form", "sequentials/_invariants.py", "        if sorted(new_order) != list(range(self.num_equations)):\n            raise ValueError(\"New equation order must be a permutation of integers from 0 to num_equations-1\")", "        if sorted(new_order) == list(range(self.num_equations)):\n            pass\n        else:\n            raise ValueError(\"New equation order must be a permutation of integers from 0 to num_equations-1\")")
+
+# ------------------------------------------------------------------------------------------------ C05
+ST = "simultaneous/_steady.py"
+M("C05", "writeback-before-check", ST, "        if not success:\n            _throw_block_error(human_block, custom_header, )\n        #\n        # Update variant with steady levels and changes\n        _update_variant_with_final_guess(variant, steady_evaluator, qid_to_kind, qid_to_name, )", "        _update_variant_with_final_guess(variant, steady_evaluator, qid_to_kind, qid_to_name, )\n        if not success:\n            _throw_block_error(human_block, custom_header, )", "C05-R1")
+M("C05", "check-dropped", ST, "        if not success:\n            _throw_block_error(human_block, custom_header, )\n", "", "C05-R1")
+M("C05", "thrower-no-raise", ST, "    raise _wrongdoings.IrisPieError(message, )", "    _wrongdoings.IrisPieError(message, )", "C05-R1") if False else None
+M("C05", "success-ignores-status", "steadiers/solver_dispatcher.py", "    success = exit_status.is_success", "    success = True", "C05-R1")
+M("C05", "scipy-success-no-norm", "steadiers/solver_dispatcher.py", '    success = root_final.success and func_norm < solver_settings["tol"]', "    success = True or root_final.success", "C05-R1") if False else None
+M("C05", "evaluators-swapped", ST, "        case (False, True, ):\n            return _ft.partial(\n                _steady_nonlinear,\n                evaluator_class=_evaluators.FlatSteadyEvaluator,", "        case (False, True, ):\n            return _ft.partial(\n                _steady_nonlinear,\n                evaluator_class=_evaluators.NonflatSteadyEvaluator,", "C05-R2")
+M("C05", "linear-algorithm-swapped", ST, "        case (True, True, ):\n            return _ft.partial(\n                _steady_linear,\n                algorithm=_fs.solve_steady_linear_flat,", "        case (True, True, ):\n            return _ft.partial(\n                _steady_linear,\n                algorithm=_fs.solve_steady_linear_nonflat,", "C05-R2")
+M("C05", "match-not-exhaustive", ST, "        case (True, False, ):\n            return _ft.partial(\n                _steady_linear,\n                algorithm=_fs.solve_steady_linear_nonflat,\n            )\n", "", "C05-R2")
+M("C05", "changes-not-exponentiated", "steadiers/evaluators.py", "        changes[self._where_logly] = _np.exp(changes[self._where_logly])\n", "", "C05-R3")
+M("C05", "split-off-by-one", "steadiers/evaluators.py", "current_guess[self._num_levels:]", "current_guess[self._num_levels+1:]", "C05-R3")
+M("C05", "nonflat-array-no-exp", "steadiers/evaluators.py", "        new_paths = new_maybelog_levels.reshape(-1, 1) + self._shift_vec * new_maybelog_changes.reshape(-1, 1)\n        new_paths[self._where_logly, :] = _np.exp(new_paths[self._where_logly, :])", "        new_paths = new_maybelog_levels.reshape(-1, 1) + self._shift_vec * new_maybelog_changes.reshape(-1, 1)", "C05-R3")
+M("C05", "stale-jacobian", "steadiers/evaluators.py", "        self._update_steady_array(maybelog_guess, )\n        jacobian = self._jacobian.eval(self._steady_array, self._column_offset, )\n        return jacobian[:", "        jacobian = self._jacobian.eval(self._steady_array, self._column_offset, )\n        return jacobian[:", "C05-R4")
+M("C05", "path-no-shift", "steadiers/evaluators.py", "self._shift_vec * new_maybelog_changes.reshape(-1, 1)", "new_maybelog_changes.reshape(-1, 1)", "C05-R5")
+M("C05", "steady-array-exp-before-sum", "simultaneous/_variants.py", "        steady_array = levels + changes * shift_vec", "        steady_array = levels * changes ** shift_vec", "C05-R5")
+M("C05", "linear-block-sign", "fords/steadiers.py", "        hstack(( A + B, 0*A + (0-1)*B )),", "        hstack(( A + B, 0*A + (0+1)*B )),", "C05-R6")
+M("C05", "linear-block-k", "fords/steadiers.py", "        hstack(( A + B, k*A + (k-1)*B )),", "        hstack(( A + B, k*A + k*B )),", "C05-R6")
+M("C05", "linear-flat-sum", "fords/steadiers.py", "    Xi = left_div(-(A + B), C, )", "    Xi = left_div(-(A - B), C, )", "C05-R6")
+M("C05", "meas-block", "fords/steadiers.py", "        hstack(( G, k*G )),", "        hstack(( G, 0*G )),", "C05-R6")
+T("C05", "twin-success-positive-form", ST, "        if not success:\n            _throw_block_error(human_block, custom_header, )\n        #\n        # Update variant with steady levels and changes\n        _update_variant_with_final_guess(variant, steady_evaluator, qid_to_kind, qid_to_name, )", "        if success:\n            _update_variant_with_final_guess(variant, steady_evaluator, qid_to_kind, qid_to_name, )\n        else:\n            _throw_block_error(human_block, custom_header, )")
+T("C05", "twin-linear-block-rewritten", "fords/steadiers.py", "        hstack(( A + B, 0*A + (0-1)*B )),", "        hstack(( B + A, -B )),")
+T("C05", "twin-path-commuted", "steadiers/evaluators.py", "new_maybelog_levels.reshape(-1, 1) + self._shift_vec * new_maybelog_changes.reshape(-1, 1)", "new_maybelog_changes.reshape(-1, 1) * self._shift_vec + new_maybelog_levels.reshape(-1, 1)")
+
+# ------------------------------------------------------------------------------------------------ C06
+SK = "stacked_time/simulators.py"
+EV = "stacked_time/_evaluators.py"
+M("C06", "bool-return", SK, "        return _nq.ExitStatus.NO_SOLVER_NEEDED", "        success = True\n        return success", "C06-R1")
+M("C06", "no-return-status", SK, "    evaluator.update(final_guess, data, )\n    return exit_status", "    evaluator.update(final_guess, data, )", "C06-R1")
+M("C06", "ford-returns-none", "fords/simulators.py", "    return _nq.ExitStatus.SUCCESS", "    return None", "C06-R1")
+M("C06", "jacobian-before-terminal", EV, "        if needs_terminal:\n            terminator.terminate_simulation(data_array, )\n        jacobian_outcome = jacobian.eval(data_array, )\n        if needs_terminal:\n            jacobian_outcome = terminator.terminate_jacobian(jacobian_outcome, )", "        jacobian_outcome = jacobian.eval(data_array, )\n        if needs_terminal:\n            terminator.terminate_simulation(data_array, )\n        if needs_terminal:\n            jacobian_outcome = terminator.terminate_jacobian(jacobian_outcome, )", "C06-R2")
+M("C06", "func-no-terminal", EV, "        if needs_terminal:\n            terminator.terminate_simulation(data_array, )\n        equator_outcome = equator.eval(data_array, )\n        return _np.vstack(equator_outcome, ).flatten(order=\"F\", )", "        equator_outcome = equator.eval(data_array, )\n        return _np.vstack(equator_outcome, ).flatten(order=\"F\", )", "C06-R2")
+M("C06", "jacobian-not-terminated", EV, "        jacobian_outcome = jacobian.eval(data_array, )\n        if needs_terminal:\n            jacobian_outcome = terminator.terminate_jacobian(jacobian_outcome, )\n        return jacobian_outcome\n", "        jacobian_outcome = jacobian.eval(data_array, )\n        return jacobian_outcome\n", "C06-R2")
+M("C06", "final-guess-not-written", SK, "    evaluator.update(final_guess, data, )\n", "", "C06-R2")
+M("C06", "terminator-no-exp", "fords/terminators.py", "        data_array[logly_rows, :] = _np.exp(data_array[logly_rows, :])\n", "", "C06-R3")
+M("C06", "terminal-column-offset", "fords/terminators.py", "        first_terminal = last_simulation + 1", "        first_terminal = last_simulation", "C06-R3")
+M("C06", "terminal-K-recursion", "fords/terminators.py", "            cum_K = T @ cum_K + K", "            cum_K = T @ cum_K", "C06-R3")
+M("C06", "update-no-exp", EV, "        maybelog_guess[index_logly] = _np.exp(maybelog_guess[index_logly])\n", "", "C06-R3")
+M("C06", "status-ignored", "simultaneous/_simulate.py", "                if not exit_status.is_success:\n                    when_fails_stream.add(f\"{simulation_header}: {exit_status}\", )\n", "", "C06-R4")
+M("C06", "raise-dropped", "simultaneous/_simulate.py", "        when_fails_stream._raise()\n", "", "C06-R4")
+M("C06", "slice-drops-last", "frames.py", "        self.slice = slice(self.first, self.last+1, )", "        self.slice = slice(self.first, self.last, )", "C06-R5")
+M("C06", "num-columns", "frames.py", "        self.num_simulation_columns = self.simulation_last - self.first + 1", "        self.num_simulation_columns = self.simulation_last - self.first", "C06-R5")
+M("C06", "zero-unanticipated-from-first", "frames.py", "        self.zero_unanticipated_slice = slice(self.first+1, None, )", "        self.zero_unanticipated_slice = slice(self.first, None, )", "C06-R5")
+M("C06", "columns-to-run", SK, "    columns_to_run = tuple(range(frame.first, frame.simulation_last+1, ))", "    columns_to_run = tuple(range(frame.first, frame.simulation_last, ))", "C06-R5")
+T("C06", "twin-num-columns", "frames.py", "        self.num_simulation_columns = self.simulation_last - self.first + 1", "        self.num_simulation_columns = 1 + self.simulation_last - self.first")
+T("C06", "twin-status-positive", "simultaneous/_simulate.py", "                if not exit_status.is_success:\n                    when_fails_stream.add(f\"{simulation_header}: {exit_status}\", )\n", "                if exit_status.is_success:\n                    pass\n                else:\n                    when_fails_stream.add(f\"{simulation_header}: {exit_status}\", )\n")
+
+# ------------------------------------------------------------------------------------------------ C07
+M("C07", "union-difference-swapped", SK, "        .difference(exogenized_spots)\n        .union(endogenized_spots)", "        .union(exogenized_spots)\n        .difference(endogenized_spots)", "C07-R2")
+M("C07", "unanticipated-all-columns", SK, '        | spots_from_register("exogenized_unanticipated", columns_to_run[0:1], )', '        | spots_from_register("exogenized_unanticipated", columns_to_run, )', "C07-R2")
+M("C07", "anticipated-first-only", SK, '        spots_from_register("endogenized_anticipated", columns_to_run, )', '        spots_from_register("endogenized_anticipated", columns_to_run[0:1], )', "C07-R2")
+M("C07", "register-typo", SK, '        | spots_from_register("endogenized_unanticipated", columns_to_run[0:1], )', '        | spots_from_register("endogenized_unaticipated", columns_to_run[0:1], )', "C07-R1")
+M("C07", "copy-after-solve", SK, "    _copy_exogenized_data_to_frame_data(data, exogenized_spots, input_data_array, )\n\n    iter_printer", "    iter_printer", "C07-R2")
+M("C07", "copy-from-frame", SK, "    _copy_exogenized_data_to_frame_data(data, exogenized_spots, input_data_array, )", "    _copy_exogenized_data_to_frame_data(data, exogenized_spots, data, )", "C07-R2")
+M("C07", "return-order", SK, "    return wrt_spots, exogenized_spots\n", "    return exogenized_spots, wrt_spots\n", "C07-R2")
+M("C07", "swap-pair-index", "plans/simulation_plans.py", "            self.endogenize_anticipated(dates, pair[1], *args, **kwargs, )", "            self.endogenize_anticipated(dates, pair[0], *args, **kwargs, )", "C07-R1")
+M("C07", "swap-mode-mixed", "plans/simulation_plans.py", "            self.exogenize_anticipated(dates, pair[0], *args, **kwargs, )", "            self.exogenize_unanticipated(dates, pair[0], *args, **kwargs, )", "C07-R1")
+M("C07", "insert-wrong-register", "fords/simulators.py", '    incidence = plan_registers["exogenized_anticipated"][:, simulation_slice]', '    incidence = plan_registers["exogenized_unanticipated"][:, simulation_slice]', "C07-R1")
+M("C07", "augmented-P-pad", "fords/simulators.py", "        P = _np.pad(P, ((0, num_v_endogenized), (0, 0)), )", "        P = _np.pad(P, ((0, 0), (0, num_v_endogenized)), )", "C07-R3")
+M("C07", "augmented-K-not-padded", "fords/simulators.py", "        K = _np.pad(K, (0, num_v_endogenized), )\n", "", "C07-R3")
+M("C07", "smooth-split", "fords/simulators.py", "            v_endogenized = xi[-num_v_endogenized:]", "            v_endogenized = xi[:num_v_endogenized]", "C07-R3")
+M("C07", "targets-with-noise", "fords/simulators.py", "    H = _np.zeros((num_y, solution.num_w, ), )", "    H = _np.ones((num_y, solution.num_w, ), )", "C07-R3")
+T("C07", "twin-set-operators", SK, "        set(wrt_spots)\n        .difference(exogenized_spots)\n        .union(endogenized_spots)", "        (set(wrt_spots) - set(exogenized_spots)) | set(endogenized_spots)")
